@@ -706,9 +706,15 @@ def run(ctx):
                     n.func.id == "hasattr" and len(n.args) == 2 and \
                     isinstance(n.args[1], ast.Constant):
                 guarded.add(n.args[1].value)
+        # names bound by `except ... as err` hold exception objects, often
+        # of foreign classes (JSONDecodeError.pos, OSError.errno, ...)
+        caught = {h.name for h in walk_no_nested(f.node)
+                  if isinstance(h, ast.ExceptHandler) and h.name}
         for n in walk_no_nested(f.node):
             if not (isinstance(n, ast.Attribute) and
                     isinstance(n.ctx, ast.Load)):
+                continue
+            if isinstance(n.value, ast.Name) and n.value.id in caught:
                 continue
             ent = repo.resolve_expr(f.module, n.value)
             if isinstance(ent, (Module, External)):
@@ -861,6 +867,97 @@ def run(ctx):
                 if why:
                     msg += "; " + why
                 ctx.violation(R, f.short, construct, msg)
+    ctx.exhaustive[R] = True
+
+    # ------------------------------------------------------ cross_length_index
+    R = "C07.cross_length_index"
+    ctx.rule(R, "a loop `for i in range(.. len(A) ..)` that indexes a "
+             "different collection B with i must bound the index by len(B) "
+             "too (a test of i against len(B), an enclosing try catching "
+             "IndexError) or be listed as reviewed: the two lengths come "
+             "from different fields of the input", floor=1)
+    REVIEWED_CROSS = {
+        ("line.group.path.captured_path.CapturedPath.captured_path",
+         "self.links[i]"):
+            "links is built by _initialize_links with one link per "
+            "consecutive pair of segment_names (and one more for a circular "
+            "path); the loop stops at len(segment_names) - 1",
+    }
+    for f in reach_sorted:
+        for lp in walk_no_nested(f.node):
+            if not (isinstance(lp, ast.For) and isinstance(lp.iter, ast.Call)
+                    and isinstance(lp.iter.func, ast.Name) and
+                    lp.iter.func.id == "range" and
+                    isinstance(lp.target, ast.Name)):
+                continue
+            lens = [unparse(n.args[0]) for a in lp.iter.args
+                    for n in ast.walk(a)
+                    if isinstance(n, ast.Call) and
+                    isinstance(n.func, ast.Name) and n.func.id == "len" and
+                    n.args]
+            if not lens:
+                continue
+            i = lp.target.id
+            guarded = set()
+            for n in ast.walk(lp):
+                if isinstance(n, ast.Compare) and any(
+                        isinstance(x, ast.Name) and x.id == i
+                        for x in ast.walk(n)):
+                    for c in ast.walk(n):
+                        if isinstance(c, ast.Call) and \
+                                isinstance(c.func, ast.Name) and \
+                                c.func.id == "len" and c.args:
+                            guarded.add(unparse(c.args[0]))
+            in_try = any(isinstance(t, ast.Try) and any(
+                exc.handler_names(h) & {"*", "Exception", "IndexError",
+                                        "LookupError"} for h in t.handlers)
+                and any(lp is x for x in ast.walk(t))
+                for t in walk_no_nested(f.node) if isinstance(t, ast.Try))
+            for n in ast.walk(lp):
+                if isinstance(n, ast.Subscript) and \
+                        isinstance(n.ctx, ast.Load) and \
+                        not isinstance(n.slice, ast.Slice) and any(
+                            isinstance(x, ast.Name) and x.id == i
+                            for x in ast.walk(n.slice)):
+                    b = unparse(n.value)
+                    ctx.instance(R)
+                    ok = b in lens or b in guarded or in_try or \
+                        (f.short, unparse(n)) in REVIEWED_CROSS
+                    ctx.oblige(ok)
+                    if not ok:
+                        ctx.violation(
+                            R, f.short, unparse(n)[:60],
+                            "the index runs over range(len(%s)) but indexes "
+                            "%s, whose length is not tested: IndexError "
+                            "when the two lists of the input differ in "
+                            "length" % (", ".join(lens), b))
+    ctx.exhaustive[R] = True
+
+    # ---------------------------------------------------- reserved_record_type
+    R = "C07.reserved_record_type"
+    ctx.rule(R, "the record-type string reserved for placeholders of unknown "
+             "lines (Unknown.RECORD_TYPE) cannot be given to a line built "
+             "from text: Construction._subclass refuses it with a library "
+             "error for every version (otherwise a custom record is stored "
+             "under the placeholders' key and name lookups fail on it)",
+             floor=3)
+    from ..tables import eval_function
+    from ..linehooks import LineHooks
+    from ..model import record_table
+    unk = repo.cls("line.Unknown")
+    reserved = record_table(repo, unk).RECORD_TYPE
+    f_sub = ctx.anchor("Line._subclass", repo.cls("Line").find_method(
+        "_subclass"))
+    for version in (None, "gfa1", "gfa2"):
+        ctx.instance(R)
+        out = eval_function(repo, f_sub, [[reserved], version],
+                            hooks=LineHooks(repo))
+        ok = out[0] == "raise" and not str(out[1]).startswith("builtins.")
+        ctx.oblige(ok)
+        if not ok:
+            ctx.violation(R, f_sub.short, "version=%s" % version,
+                          "a text line with record type %r is dispatched to "
+                          "%r instead of being refused" % (reserved, out[1]))
     ctx.exhaustive[R] = True
 
     # ------------------------------------------------------------------ rewrap
